@@ -111,6 +111,23 @@ _DEPTH = [0]
 _SCHEME = [None]
 
 
+def _diverges(facts, blk):
+    """does the block end by leaving the enclosing iteration / function (continue, break, return, `!`-typed tail)?"""
+    if not isinstance(blk, dict):
+        return False
+    if blk.get("k") != "Block":
+        return blk.get("k") in ("Continue", "Break", "Ret") or facts.ty(blk) == "!"
+    tail = blk.get("expr")
+    if tail is not None:
+        return _diverges(facts, strip(tail))
+    st = blk.get("stmts") or []
+    if not st:
+        return False
+    last = st[-1]
+    e = strip(last.get("e")) if isinstance(last.get("e"), dict) else {}
+    return e.get("k") in ("Continue", "Break", "Ret") or (bool(e) and facts.ty(e) == "!")
+
+
 def grammar(facts, node, mode):
     """List of grammar items for the subtree (evaluation order)."""
     if node is None or not isinstance(node, dict):
@@ -176,7 +193,14 @@ def grammar(facts, node, mode):
         return s + [("alt", guard_names(node["e"]), tuple(arms))]
     out = []
     if k == "Block":
-        for st in node.get("stmts", []):
+        stmts = node.get("stmts", [])
+        for si, st in enumerate(stmts):
+            e_ = strip(st.get("e")) if st.get("k") in ("Semi", "Expr") and isinstance(st.get("e"), dict) else {}
+            if e_.get("k") == "If" and not e_.get("el") and _diverges(facts, e_["th"]) and grammar(facts, e_["th"], mode):
+                # `if c { A; continue }  B`  is  `if c { A } else { B }`: the rest of the block is the other alternative
+                rest = {"k": "Block", "stmts": stmts[si + 1:], "expr": node.get("expr")}
+                synth = {"k": "If", "c": e_["c"], "th": e_["th"], "el": rest, "t": e_.get("t"), "l": e_.get("l")}
+                return out + grammar(facts, synth, mode)
             if st.get("k") == "Let":
                 out += grammar(facts, st.get("init"), mode)
                 out += grammar(facts, st.get("els"), mode)
